@@ -32,6 +32,7 @@ CHECKS = {
             {"name": "TestC01Mid", "quick": 1500, "thorough": 288000},
             {"name": "TestC01ManyFields", "quick": 150, "thorough": 14400},
             {"name": "TestC01Huge", "quick": 3, "thorough": 240, "min_per_shard": 3},
+            {"name": "TestC01Terms", "quick": 100, "thorough": 9600, "min_per_shard": 20},
             {"name": "TestC01Regress", "quick": 0},
         ],
         "assumptions": COMMON_ASSUMPTIONS,
@@ -64,7 +65,7 @@ CHECKS = {
     },
     "C08": {
         "level": "exploration",
-        "tests": [{"name": "TestC08", "quick": 5000, "thorough": 960000}, {"name": "TestC08Regress", "quick": 0}, {"name": "TestC08RegressRange", "quick": 0}],
+        "tests": [{"name": "TestC08", "quick": 5000, "thorough": 960000}, {"name": "TestC08Terms", "quick": 150, "thorough": 14400, "min_per_shard": 20}, {"name": "TestC08Regress", "quick": 0}, {"name": "TestC08RegressRange", "quick": 0}],
         "assumptions": COMMON_ASSUMPTIONS + ["range bounds are nil or non-empty with start <= end; automata implement the segment.Automaton contract"],
     },
     "C11": {
